@@ -437,6 +437,7 @@ impl ConnectionEngine {
 //@@ end
 
 //@@ fn file=fe2o3-amqp/src/connection/engine.rs impl=`~impl<Io,C>ConnectionEngine<Io,C>whereIo:AsyncRead+AsyncWrite+std::fmt::Debug+SendBound+Unpin+'static,C:endpoint::Connection<State=ConnectionState>` name=on_incoming
+//@@ shape loops=whilelet
 //@@ attr #[verifier::loop_isolation(false)]
 //@@ attr #[verifier::allow_complex_invariants]
 //@@ qmark
@@ -486,6 +487,7 @@ impl ConnectionEngine {
 //@@ end
 
 //@@ fn file=fe2o3-amqp/src/connection/engine.rs impl=`~impl<Io,C>ConnectionEngine<Io,C>whereIo:AsyncRead+AsyncWrite+std::fmt::Debug+SendBound+Unpin+'static,C:endpoint::Connection<State=ConnectionState>` name=wait_for_remote_close
+//@@ shape loops=loop
 //@@ attr #[verifier::exec_allows_no_decreases_clause]
 //@@ qmark
 //@@ subst `|| { transport::Error::Io(io::Error::new( io::ErrorKind::UnexpectedEof, "Expecting remote close", )) }` => `|| -> (o: TransportError) { eof_transport_error() }` rule=R18
@@ -531,6 +533,7 @@ impl ConnectionEngine {
 //@@ end
 
 //@@ fn file=fe2o3-amqp/src/connection/engine.rs impl=`~impl<Io,C>ConnectionEngine<Io,C>whereIo:AsyncRead+AsyncWrite+std::fmt::Debug+SendBound+Unpin+'static,C:endpoint::Connection<State=ConnectionState>` name=on_control
+//@@ shape loops=whilelet
 //@@ attr #[verifier::loop_isolation(false)]
 //@@ qmark
 //@@ subst `ConnectionStopReason::ClosedWithError(error.clone())` => `stop_reason_closed_with_error(error.clone())` rule=R11
